@@ -539,6 +539,19 @@ func (w *treeWorld) exec(r *Run, line string) {
 			} else {
 				r.Emit(line, rootObs(rt))
 			}
+		case "rootidx!":
+			// the root table cannot be read while the lookup runs (renamed away): an error has to come back, never a root
+			i := bigOf(ws[2]).Uint64()
+			_, e1 := w.sqldb.Exec(`ALTER TABLE root RENAME TO root_verif_away`)
+			must(e1)
+			rt, err := w.ao.GetRootByIndex(context.Background(), uint32(i))
+			_, e2 := w.sqldb.Exec(`ALTER TABLE root_verif_away RENAME TO root`)
+			must(e2)
+			r.Emit(line, "err fault")
+			if err == nil {
+				r.Fail(fmt.Sprintf("[C08,C01] GetRootByIndex(%d) answered root %s (index %d) without an error while the root table could not be read: a root that was never recorded is served", i, rt.Hash.Hex(), rt.Index), cp())
+			}
+			r.Count("q:rootidx-under-read-fault")
 		case "rootidx":
 			i := bigOf(ws[2]).Uint64()
 			rt, err := w.ao.GetRootByIndex(context.Background(), uint32(i))
